@@ -414,6 +414,8 @@ module N :
 
 val nth : nat -> 'a1 list -> 'a1 -> 'a1
 
+val rev : 'a1 list -> 'a1 list
+
 val concat : 'a1 list list -> 'a1 list
 
 val list_eq_dec : ('a1 -> 'a1 -> bool) -> 'a1 list -> 'a1 list -> bool
@@ -449,6 +451,31 @@ val byte_eq_dec : byte -> byte -> bool
 val to_N : byte -> n
 
 val of_N : n -> byte option
+
+type ascii =
+| Ascii of bool * bool * bool * bool * bool * bool * bool * bool
+
+val zero : ascii
+
+val one : ascii
+
+val shift : bool -> ascii -> ascii
+
+val eqb1 : ascii -> ascii -> bool
+
+val ascii_of_pos : positive -> ascii
+
+val ascii_of_N : n -> ascii
+
+val n_of_digits : bool list -> n
+
+val n_of_ascii : ascii -> n
+
+type string =
+| EmptyString
+| String of ascii * string
+
+val eqb2 : string -> string -> bool
 
 type decision = bool
 
@@ -758,9 +785,128 @@ val gset_elements :
 val gset_elem_of_dec :
   ('a1, 'a1) relDecision -> 'a1 countable -> ('a1, 'a1 gset) relDecision
 
-val w : n
+type byte0 = byte
+
+val x00 : byte0
+
+val byte_eq_dec0 : (byte0, byte0) relDecision
+
+val byte_countable : byte0 countable
+
+type bytes = byte0 list
+
+val bytes_eqb : bytes -> bytes -> bool
 
 val bS : n
+
+val zeros : n -> bytes
+
+val zero_block : bytes
+
+val all_zero : bytes -> bool
+
+val byte_of_N : n -> byte0
+
+val le : nat -> n -> bytes
+
+val unle : bytes -> n
+
+val takeN : n -> 'a1 list -> 'a1 list
+
+val dropN : n -> 'a1 list -> 'a1 list
+
+val lenN : 'a1 list -> n
+
+val get : nat -> bytes -> n -> n
+
+val get64 : bytes -> n -> n
+
+val get32 : bytes -> n -> n
+
+val splice : bytes -> n -> bytes -> bytes
+
+type name = bytes
+
+type handle = bytes
+
+val mk_handle : n -> n -> handle
+
+val parse_handle : handle -> (n * n) option
+
+val b_dot : byte0
+
+val b_slash : byte0
+
+val dot : name
+
+val dotdot : name
+
+type ty =
+| TU32
+| TU64
+| TBool
+| TFixed of n
+| TVar of n option
+| TOpt of ty
+| TArr32
+| TRef of string
+| TSeq of item list
+and item =
+| IField of string * ty
+| ISwitch of string * (n * item list) list * item list option
+
+type env = (string * ty) list
+
+val lookup_ty : env -> string -> ty option
+
+type val0 =
+| VN of n
+| VB of bytes
+| VO of val0 option
+| VL of val0 list
+| VS of (string * val0) list
+
+val be : nat -> n -> bytes
+
+val unbe : bytes -> n -> n
+
+val pad_len : n -> n
+
+val w32 : n
+
+val w64 : n
+
+val field_val : (string * val0) list -> string -> n option
+
+val find_arm : (n * 'a1) list -> n -> 'a1 option
+
+val enc_words : val0 list -> bytes option
+
+val enc : env -> nat -> ty -> val0 -> bytes option
+
+val take_bytes : n -> bytes -> (bytes * bytes) option
+
+val word : nat -> bytes -> (n * bytes) option
+
+val dec_words : nat -> bytes -> (val0 list * bytes) option
+
+val dec : env -> nat -> ty -> bytes -> (val0 * bytes) option
+
+val lower_ascii : ascii -> ascii
+
+val lower : string -> string
+
+val name_eqb : string -> string -> bool
+
+val lookup_ci : env -> string -> ty option
+
+val gen_env : env
+
+val rfc_env : env
+
+val w : n
+
+val bS0 : n
 
 type sbyte = n
 
@@ -768,11 +914,11 @@ type ino = { size1 : n; blk : sbyte list }
 
 val sum_overflows : n -> n -> bool
 
-val lenN : 'a1 list -> n
+val lenN0 : 'a1 list -> n
 
 val sub0 : sbyte list -> n -> n -> sbyte list
 
-val splice : sbyte list -> n -> sbyte list -> sbyte list
+val splice0 : sbyte list -> n -> sbyte list -> sbyte list
 
 val i_read : ino -> n -> n -> sbyte list * bool
 
@@ -827,62 +973,6 @@ val simple_empty_s : sstate
 
 val simple_empty_i : istate
 
-type byte0 = byte
-
-val x00 : byte0
-
-val byte_eq_dec0 : (byte0, byte0) relDecision
-
-val byte_countable : byte0 countable
-
-type bytes = byte0 list
-
-val bytes_eqb : bytes -> bytes -> bool
-
-val bS0 : n
-
-val zeros : n -> bytes
-
-val zero_block : bytes
-
-val all_zero : bytes -> bool
-
-val byte_of_N : n -> byte0
-
-val le : nat -> n -> bytes
-
-val unle : bytes -> n
-
-val takeN : n -> 'a1 list -> 'a1 list
-
-val dropN : n -> 'a1 list -> 'a1 list
-
-val lenN0 : 'a1 list -> n
-
-val get : nat -> bytes -> n -> n
-
-val get64 : bytes -> n -> n
-
-val get32 : bytes -> n -> n
-
-val splice0 : bytes -> n -> bytes -> bytes
-
-type name = bytes
-
-type handle = bytes
-
-val mk_handle : n -> n -> handle
-
-val parse_handle : handle -> (n * n) option
-
-val b_dot : byte0
-
-val b_slash : byte0
-
-val dot : name
-
-val dotdot : name
-
 type kstate = (n, bytes) gmap
 
 val kput : kstate -> (n * bytes) list -> kstate
@@ -897,7 +987,7 @@ val kvs_empty : kstate
 
 val w0 : n
 
-val w64 : n -> n
+val w1 : n -> n
 
 type fsSuper = { size2 : n; nLog : n; nBlockBitmap : n; nInodeBitmap : 
                  n; nInodeBlk : n; maxaddr : n }
